@@ -3,7 +3,7 @@
    pyxel/util/misc.py (get_dtype) on every run. *)
 From Coq Require Import ZArith List Bool Reals Lia.
 From Flocq Require Import Core BinarySingleNaN.
-From PyxelV Require Import Lib.B64 Model.Adc Proofs.AdcChain Proofs.AdcFloat Proofs.AdcWitness.
+From PyxelV Require Import Lib.B64 Model.Adc Proofs.AdcChain Proofs.AdcFloat Proofs.AdcRange Proofs.AdcSar Proofs.AdcWitness.
 From PyxelGen Require Import Gen_C16.
 Import ListNotations.
 Open Scope Z_scope.
@@ -44,6 +44,43 @@ Theorem C16_low_saturates :
   simple_code w bits vmin vmax x = Some 0.
 Proof. exact simple_low_saturates. Qed.
 Print Assumptions C16_low_saturates.
+
+(* ---- simple converter: only integers from 0 to 2^bits - 1, for resolutions up to 52 bits, ALL finite
+   ranges and ALL non-NaN voltages (the statement for 54..64 bits is refuted below; 53 bits is open:
+   not proved, no counterexample found) *)
+Theorem C16_range_partial :
+  forall (bits : Z) (vmin vmax : b64), 1 <= bits <= 52 ->
+  is_finite vmin = true -> is_finite vmax = true -> (B2R vmin < B2R vmax)%R ->
+  forall (w : Z) (x : b64) (c : Z), bis_nan x = false ->
+  simple_code w bits vmin vmax x = Some c ->
+  0 <= c <= 2 ^ bits - 1.
+Proof. exact simple_range. Qed.
+Print Assumptions C16_range_partial.
+
+(* ---- successive-approximation converter, resolutions up to 53 bits: every code lies in
+   0 .. 2^bits - 1 for ALL voltages (NaN and infinities included) and ALL reference voltages, the cast
+   is defined whenever the type is wide enough, and the code is non-decreasing in the voltage (finite
+   voltages, finite vmax >= 0).  For 54..63 bits the range statement is refuted below. *)
+Theorem C16_sar_range_partial :
+  forall (w bits : Z) (vmax x : b64) (c : Z),
+  1 <= bits <= 53 -> sar_code w bits vmax x = Some c -> 0 <= c <= 2 ^ bits - 1.
+Proof. exact sar_range. Qed.
+Print Assumptions C16_sar_range_partial.
+
+Theorem C16_sar_defined :
+  forall (w bits : Z) (vmax x : b64),
+  1 <= bits <= 53 -> bits <= w -> exists c, sar_code w bits vmax x = Some c.
+Proof. exact sar_defined. Qed.
+Print Assumptions C16_sar_defined.
+
+Theorem C16_sar_monotone_partial :
+  forall (bits : Z), 1 <= bits <= 53 ->
+  forall (w : Z) (vmax x y : b64) (cx cy : Z),
+  is_finite vmax = true -> (0 <= B2R vmax)%R ->
+  is_finite x = true -> is_finite y = true -> ble x y = true ->
+  sar_code w bits vmax x = Some cx -> sar_code w bits vmax y = Some cy -> cx <= cy.
+Proof. exact sar_monotone. Qed.
+Print Assumptions C16_sar_monotone_partial.
 
 (* non-vacuity: the hypotheses are met by an ordinary setting, and the conclusion is not trivial *)
 Example C16_hyps_satisfiable :
